@@ -83,3 +83,17 @@ func valueType(t ssa.Type) bool {
 //@   requires cur != nil && result != nil && valueType(result.Type)
 //@   ensures[result-stored-at-full-width] isStoreKind(r0) && moveBits(r0) == typeBits(old(result.Type))
 //@   nosafety
+
+// The Go-call trampoline (compiled code calls a host function): a stack-passed parameter is fetched from the
+// caller's frame, and a stack-passed result is written to it, with a load / store of the width of its type,
+// stepping the frame pointer by the slot size (8 bytes, 16 for v128).
+//@ func (m *machine) goFunctionCallLoadStackArg(cur *instruction, originalArg0Reg regalloc.VReg, arg *backend.ABIArg, intVReg, floatVReg regalloc.VReg) (*instruction, regalloc.VReg)
+//@   requires cur != nil && arg != nil && valueType(arg.Type)
+//@   ensures[stack-parameter-loaded-at-full-width] isLoadKind(r0) && moveBits(r0) == typeBits(arg.Type) && r0.prev == cur
+//@   ensures[into-a-register-of-its-class] r1 == intVReg || r1 == floatVReg
+//@   nosafety
+
+//@ func (m *machine) goFunctionCallStoreStackResult(cur *instruction, originalRet0Reg regalloc.VReg, result *backend.ABIArg, resultVReg regalloc.VReg) *instruction
+//@   requires cur != nil && result != nil && valueType(result.Type)
+//@   ensures[stack-result-stored-at-full-width] isStoreKind(r0) && moveBits(r0) == typeBits(result.Type) && r0.prev == cur
+//@   nosafety
